@@ -747,7 +747,9 @@ def observation(rec):
             "sent": [{k: (v.hex() if isinstance(v, bytes) else v) for k, v in s.items()} for s in rec.sent],
             "logs": {str(u): t for u, t in rec.logs.items()}, "changed": rec.changed, "escaped": rec.escaped,
             "timeline": [[k, (d["tag"] if k == "req" else d)] for k, d in rec.timeline],
-            "hosted_now": [u for u, _ in rec.units]}
+            "hosted_now": [u for u, _ in rec.units],
+            # units whose tables changed although no request was ever executed on that slave object
+            "changed_unaddressed": [u for u in rec.changed if not rec.logs.get(u)]}
 
 
 def sanity(rec):
